@@ -1059,7 +1059,7 @@ func (self *PathNode) Field(id thrift.FieldID, opts *Options) *PathNode {
 		return err
 	}
 	// fast path: use id to find the key.
-	if opts.StoreChildrenById && int(id) <= StoreChildrenByIdShreshold {
+	if opts.StoreChildrenById && int(id) >= 0 && int(id) < StoreChildrenByIdShreshold && int(id) < len(self.Next) {
 		v := &self.Next[id]
 		if v.Path.t != 0 && v.Path.id() == id {
 			return v
@@ -1091,9 +1091,14 @@ func (self *PathNode) SetField(id thrift.FieldID, val Node, opts *Options) (bool
 		return false, err
 	}
 	// fast path: use id to find the key.
-	if opts.StoreChildrenById && int(id) <= StoreChildrenByIdShreshold {
+	// (ids below the threshold own the slot of their index, exactly as scanChildren stores them)
+	if opts.StoreChildrenById && int(id) >= 0 && int(id) < StoreChildrenByIdShreshold && int(id) < len(self.Next) {
 		v := &self.Next[id]
 		exist := v.Path.t != 0
+		if !exist {
+			// claim the empty slot, otherwise the new child can never be found or marshalled
+			v.Path = NewPathFieldId(id)
+		}
 		v.Node = val
 		return exist, nil
 	}
